@@ -511,6 +511,26 @@ func sliceConvRule(c *Ctx, r *R) {
 		r.undecided("slice conversion", c.Pos(sc.Clause), "no CONVERT emitted by compile(\"call\")")
 		return
 	}
+	// Value.convert: a conversion between types of the same base kind keeps the value —
+	// for every kind, not only the nillable ones (type Flag bool; Flag(ok))
+	if fd := c.Func("Value.convert"); fd != nil {
+		ident, restricted := false, ""
+		for _, p := range c.pathsOf("Value.convert") {
+			if len(p.Ret) != 1 || p.Ret[0].String() != "v" {
+				continue
+			}
+			cs := condStrings(p)
+			if !strings.Contains(cs, "Type.base(v.t) == Type.base(t)") && !strings.Contains(cs, "Type.base(t) == Type.base(v.t)") {
+				continue
+			}
+			if strings.Contains(cs, "nillableMin") {
+				restricted = cs
+				continue
+			}
+			ident = true
+		}
+		r.check(ident, "identity conversion", c.Pos(fd), "same base kind: the operand itself", "Value.convert keeps the operand of a same-kind conversion only for nillable kinds ("+restricted+"): with `type Flag bool`, Flag(ok) is nil — as a map key every Flag collapses to one entry; Vec(s) / Table(m) must also stay the same reference")
+	}
 	r.check(full, "slice conversion", c.Pos(sc.Clause), "[]T(x) converts to the full slice type", "compile(\"call\") emits CONVERT with the bare slice tag for []T(x): the element type is lost — `c := append([]int(nil), src...); c = append(c, 1000)` stores 232 (a byte), `type Vec []float64; Vec(s)` is nil")
 }
 
